@@ -167,22 +167,43 @@ class Ctx:
         self.ptr_params = []
         fnode = tu.protos.get(contract.name) if contract.name else None
         self.pdecls = [x for x in fnode.get("inner", []) if x.get("kind") == "ParmVarDecl"] if fnode else []
-        self._pi = 0
+        self._used = set()
+        self._cur = None
         self.memo = {}
         self.declared_bounds = []
+        self.polarity = "assume"
+        self.ret_locals = None
 
     # ---- parameter declaration
     def _next(self, name):
-        if self._pi >= len(self.pdecls):
-            raise Unsupported("contract of %s declares more parameters than the function has" % self.contract.name)
-        d = self.pdecls[self._pi]
-        if d.get("name") and name != d["name"]:
-            # bound by position; the source name is informational
-            self.E.notes.add("parameter %d of %s is called %s in the source (contract: %s)" % (self._pi, self.contract.name, d["name"], name))
-        self._pi += 1
+        """parameter declaration `name`: bound by source name when there is one, else by position"""
+        idx = None
+        for k, d in enumerate(self.pdecls):
+            if k not in self._used and d.get("name") == name:
+                idx = k
+                break
+        if idx is None:
+            for k, d in enumerate(self.pdecls):
+                if k not in self._used:
+                    idx = k
+                    break
+            if idx is None:
+                raise Unsupported("contract of %s declares more parameters than the function has" % self.contract.name)
+            d = self.pdecls[idx]
+            if d.get("name"):
+                self.E.notes.add("parameter %d of %s is called %s in the source (contract: %s); bound by position"
+                                 % (idx, self.contract.name, d["name"], name))
+        self._used.add(idx)
+        self._cur = idx
+        d = self.pdecls[idx]
         t = self.tu.tt.parse(d["type"]["qualType"])
-        val = self.actuals[self._pi - 1] if self.actuals is not None else None
+        val = self.actuals[idx] if self.actuals is not None else None
         return d, t, val
+
+    def _bind(self, val):
+        while len(self.args) < len(self.pdecls):
+            self.args.append(None)
+        self.args[self._cur] = val
 
     def int(self, name, lo=None, hi=None, value=None):
         """integer parameter; `value` fixes it to a concrete number (ground case of a finite enumeration)"""
@@ -206,7 +227,7 @@ class Ctx:
             raise Unsupported("integer argument %s is %r" % (name, val))
         setattr(self.a, name, val.z())
         setattr(self.a, name + "_v", val)
-        self.args.append(val)
+        self._bind(val)
         return val.z()
 
     def ptr(self, name, count=1, nullable=False, single=None):
@@ -246,7 +267,7 @@ class Ctx:
                 if not idxs:
                     raise Unsupported("pointer argument without an index step")
         setattr(self.a, name, val)
-        self.args.append(val)
+        self._bind(val)
         self.ptr_params.append((name, val, cnt))
         return val
 
@@ -262,7 +283,7 @@ class Ctx:
         elif not isinstance(val, FnPtr):
             raise Unsupported("function pointer argument %s is %r" % (name, val))
         setattr(self.a, name, val.code.z())
-        self.args.append(val)
+        self._bind(val)
         return val.code.z()
 
     def glob(self, name):
@@ -277,6 +298,41 @@ class Ctx:
 
     def region(self, ptr, path=None, count=1, whole=False):
         return Region(ptr, path, count, whole)
+
+    # ---- quantifiers, by hand (queries stay quantifier-free)
+    #   goal polarity   : forall -> fresh skolem constant (forall-introduction); every universal assumed so far is
+    #                     instantiated at it
+    #   assume polarity : forall -> registered as a closure and instantiated at the terms named with `at=` / c.instantiate
+    #                     (forall-elimination); nothing un-instantiated reaches the solver
+    def forall(self, fn, name="k", at=()):
+        E = self.E
+        if self.polarity == "goal":
+            sk = z3.Int(E.fresh("sk!" + name))
+            self.instantiate(sk)
+            return fn(sk)
+        E.universals.append(fn)
+        for t in list(at) + list(E.inst_terms):
+            E.assume(fn(t))
+        return z3.BoolVal(True)
+
+    def instantiate(self, *terms):
+        E = self.E
+        for t in terms:
+            t = z3.IntVal(t) if isinstance(t, int) else t
+            if any(t.eq(x) for x in E.inst_terms):
+                continue
+            E.inst_terms.append(t)
+            for u in list(E.universals):
+                E.assume(u(t))
+
+    def lemma(self, fact):
+        """instance of a lemma that is proved separately (the property part emits its base/step obligations)"""
+        self.E.assume(fact)
+
+    def skolem_fn(self, name):
+        """assume polarity: fresh function symbol witnessing an existential (exists-elimination)"""
+        f = z3.Function(self.E.fresh("w!" + name), z3.IntSort(), z3.IntSort())
+        return f
 
     def at(self, ptr, k):
         return ptr_at(ptr, k)
@@ -385,7 +441,10 @@ def as_callee(contract_cls, tu):
     def handler(E, args, node):
         c = Ctx(E, "call", contract, tu, actuals=args, node=node)
         contract.params(c)
-        for label, g in c.validity + c.separated_ok() + list(contract.requires(c)):
+        c.polarity = "goal"
+        pre = c.validity + c.separated_ok() + list(contract.requires(c))
+        c.polarity = "assume"
+        for label, g in pre:
             E.require("pre", "call_%s.pre.%s" % (contract.name, label), g, node, callee=contract.name)
         old_state = E.state.snapshot()
         old = View(E, old_state)
@@ -427,13 +486,21 @@ class LoopSpec:
     def __init__(self, invariant, assigns=None, variant=None, note=""):
         self.invariant, self.assigns, self.variant, self.note = invariant, assigns, variant, note
 
+    def _inv(self, E, fr, entry, polarity):
+        c = E.ctx
+        c.polarity = polarity
+        try:
+            return list(self.invariant(c, Locals(E, fr), entry, View(E, E.state.snapshot())))
+        finally:
+            c.polarity = "assume"
+
     def run(self, E, s, fr, cond, inc, body):
         c = E.ctx
         ordn = E.tu.loops_of(fr.fname)[s["id"]]
         tag = "loop%d" % ordn
         entry = View(E, E.state.snapshot())
         E.extra.setdefault("loops_with_invariant", set()).add("%s#%d" % (fr.fname, ordn))
-        for label, g in self.invariant(c, Locals(E, fr), entry, View(E, E.state)):
+        for label, g in self._inv(E, fr, entry, "goal"):
             E.require("inv", "%s.inv_on_entry.%s" % (tag, label), g, s)
         # havoc
         for did in sorted(E.assigned_locals(s)):
@@ -455,9 +522,9 @@ class LoopSpec:
             allowed.add((blk.id, shape))
         for (blk, shape, lin, cnt, lt) in cells:
             E.havoc_cell(blk, shape, lin, cnt)
-        for label, g in self.invariant(c, Locals(E, fr), entry, View(E, E.state)):
+        for label, g in self._inv(E, fr, entry, "assume"):
             E.assume(g)
-        v0 = self.variant(c, Locals(E, fr), View(E, E.state)) if self.variant else None
+        v0 = self.variant(c, Locals(E, fr), View(E, E.state.snapshot())) if self.variant else None
         E.wguards.append((allowed, E.nblocks + 1, "%s of %s" % (tag, fr.fname)))
         try:
             if cond is not None and not E.branch(truth(E.rv(cond, fr))):
@@ -472,25 +539,29 @@ class LoopSpec:
                 E.rv(inc, fr, discard=True)
         finally:
             E.wguards.pop()
-        for label, g in self.invariant(c, Locals(E, fr), entry, View(E, E.state)):
+        for label, g in self._inv(E, fr, entry, "goal"):
             E.require("inv", "%s.inv_preserved.%s" % (tag, label), g, s)
         if v0 is not None:
-            v1 = self.variant(c, Locals(E, fr), View(E, E.state))
+            v1 = self.variant(c, Locals(E, fr), View(E, E.state.snapshot()))
             E.require("inv", "%s.variant_decreases" % tag, z3.And(v0 >= 0, v1 < v0), s)
         raise PathCut()
 
 
 class Locals:
+    """values of the locals of a frame by source name, captured at construction (closures stay stable)"""
+
     def __init__(self, E, fr):
         object.__setattr__(self, "_E", E)
         object.__setattr__(self, "_fr", fr)
+        object.__setattr__(self, "_names", dict(fr.names))
+        object.__setattr__(self, "_vals", dict(fr.locals))
 
     def __getattr__(self, name):
         fr = self._fr
-        did = fr.names.get(name)
-        if did is None or did not in fr.locals:
+        did = self._names.get(name)
+        if did is None or did not in self._vals:
             raise Unsupported("contract refers to local %s which is not in scope in %s" % (name, fr.fname))
-        v = fr.locals[did]
+        v = self._vals[did]
         if isinstance(v, V):
             return v.z()
         if isinstance(v, Block):
@@ -556,10 +627,15 @@ def verify(run, prop, tu, contract_cls, case_filter=None, tag_extra=None):
             if chk.check() == z3.unsat:
                 holder["vacuous"] = True
                 raise Infeasible()
+            if len(c.args) != len(c.pdecls) or any(a_ is None for a_ in c.args):
+                raise Unsupported("contract of %s does not declare every parameter" % fname)
             ret = E.call_function(fname, c.args)
-            new = View(E, E.state)
+            new = View(E, E.state.snapshot())
             rterm = ret.z() if isinstance(ret, V) else (ret.code.z() if isinstance(ret, FnPtr) else None)
+            c.ret_locals = E.last_frame_locals
+            c.polarity = "goal"
             posts = list(contract.ensures(c, old, new, rterm))
+            c.polarity = "assume"
             exact = contract.returns(c, old)
             if exact is not None:
                 posts.append(("returns_exactly", rterm == zt(exact)))
